@@ -11,6 +11,7 @@ import AuthProofs.Splitter
 import AuthProofs.CodeEquiv
 import AuthProofs.CodeEquivCheck
 import AuthModel.Generated.Facts
+import AuthProofs.CodeEquivUrls
 namespace AuthProps.C15
 open AuthModel AuthModel.Oidc
 
@@ -54,6 +55,14 @@ theorem code_trigger_path_never_panics (env : Go.Env) (rules : List Pb.TriggerRu
     (∃ b, Code.matches_ env m req = .ok b) :=
   ⟨⟨_, code_pqf env s⟩, ⟨_, code_mustTriggerCheck env rules req⟩, ⟨_, code_matches env m req⟩⟩
 
+/-- THE CODE's URL validation at load time never panics, whatever the configuration: `hasRootPath` dereferences the URL
+    `url.Parse` returned without looking at the error, and is safe only because its one call site runs after
+    `validateURL` accepted the same string (a reordering breaks this theorem) -/
+theorem code_loader_urls_never_panic (env : Go.Env) (c : Pb.OIDCConfig) (hcoh : CodeEquiv.UrlParseCoherent env) :
+    ∃ r, Code.validateOIDCConfigURLs env c = .ok r :=
+  CodeEquiv.code_validate_urls_total env c hcoh
+
+
 /-- NO HIDDEN STATE: the model treats a check as a function of (configuration, request, store answers, clock, IdP and key-source answers, entropy); that is a faithful reading of the code only if nothing else survives from one check to the next. Regenerated on every run: every package-level variable and struct field of internal/server, internal/authz, internal/http, internal/oidc is the classified expectation, and handlers, filter, HTTP helpers and the Redis store own no mutable state (no verdict cache, handler cache, object pool, single-flight group or per-process copy of session data). -/
 theorem no_hidden_state : CheckPathInventory := check_path_inventory
 
@@ -85,3 +94,4 @@ end AuthProps.C15
 #print axioms AuthProps.C15.code_trigger_path_never_panics
 #print axioms AuthProps.C15.no_hidden_state
 #print axioms AuthProps.C15.code_check_never_panics
+#print axioms AuthProps.C15.code_loader_urls_never_panic
